@@ -31,11 +31,18 @@ def cases(tier, seed):
     b = bounds(tier, seed)
     for K in b["alphabets"]:
         for p, U in al.knotvectors(K, b["pmax"], b["kmax"]):
-            if tier == "thorough" and p == 4 and len(set(U)) > 4:
+            k = len(set(U)) - 2
+            if tier == "quick":
+                if K != "K0" and p > 2:
+                    continue  # quick: the seed-selected alphabet is enumerated up to degree 2
+                yield (K, p, U, b["multiset"], 5)
                 continue
-            if tier == "quick" and K != "K0" and p > 2:
-                continue  # quick: the seed-selected alphabet is enumerated up to degree 2
-            yield (K, p, U, b["multiset"], 5 if tier == "quick" else 99)
+            # thorough: three interior knots and degree 4 on the core alphabet only; node multisets of size 3 up to degree 2
+            if (k == 3 or p == 4) and K != "K0":
+                continue
+            if p == 4 and k > 2:
+                continue
+            yield (K, p, U, 3 if (p <= 2 and k <= 2 and K == "K0") else 2, 99 if k <= 2 else 6)
     # histories on ONE live object (hidden per-object state is invisible to states rebuilt from snapshots)
     for r in range(len(LIVE_ROOTS)):
         for e in range(len(LIVE_OPS)):
